@@ -2,6 +2,7 @@ mod common;
 mod c01;
 mod c02;
 mod c03;
+mod c04;
 mod c06;
 mod c07;
 mod c10;
@@ -18,6 +19,9 @@ mod c20;
 mod extract;
 mod gen;
 use common::*;
+
+#[global_allocator]
+static ALLOC: common::Counting = common::Counting;
 use std::io::BufRead;
 
 /// Execute one operation line on the real library; the text of the line fully determines the result.
@@ -31,6 +35,7 @@ pub fn exec_line(line: &str) -> String {
             .or_else(|| c02::exec(&t))
             .or_else(|| c06::exec(&t))
             .or_else(|| c12::exec(&t))
+            .or_else(|| c04::exec(&t))
             .or_else(|| c07::exec(&t))
             .or_else(|| c10::exec(&t))
             .or_else(|| c19::exec(&t))
@@ -68,6 +73,7 @@ fn main() {
                 "C11" => c10::run_c11(&mut o, tier, seed),
                 "C19" => c19::run(&mut o, tier, seed),
                 "C12" => c12::run(&mut o, tier, seed),
+                "C04" => c04::run(&mut o, tier, seed),
                 "C06" => c06::run(&mut o, tier, seed),
                 "C14" => c14::run(&mut o, tier, seed),
                 "C18" => c18::run(&mut o, tier, seed),
@@ -77,6 +83,7 @@ fn main() {
             o.write(dir);
         }
         "extract" => { for f in extract::run(&args[2]) { println!("{}", f); } }
+        "child" => c04::child_main(),
         "exec" => { // replay: operation lines on stdin, implementation results on stdout
             for line in std::io::stdin().lock().lines() { println!("{}", exec_line(line.unwrap().trim_end())); }
         }
